@@ -120,6 +120,7 @@ def main(argv):
         # record the inventory of closures/loops per contracted function (run on the tree the contracts were written for)
         em = P.build()
         json.dump(em.inventory, open(os.path.join(P.VERIF, "contracts", "BASELINE.json"), "w"), indent=0, sort_keys=True)
+        json.dump(R.outside_panic_sites(em, counts=True), open(os.path.join(P.VERIF, "contracts", "PANIC_BASELINE.json"), "w"), indent=0, sort_keys=True)
         print("baseline: %d functions" % len(em.inventory)); return 0
     if argv and argv[0] == "dev":
         return cmd_dev(argv[1:])
